@@ -11,6 +11,7 @@ import (
 	"encoding/json"
 	"fmt"
 	"strings"
+	"time"
 
 	rt "github.com/innovationb1ue/RedisGO/verifrt"
 	"verif/h"
@@ -30,6 +31,7 @@ type script struct {
 	// stale-leader-tail: a client reads through the isolated old leader after the new leader has
 	// acknowledged its writes
 	ReadStale bool
+	Prog      [][]string // slow-commit family: the client's two commands
 }
 
 func (sc script) name() string {
@@ -45,6 +47,9 @@ func (sc script) name() string {
 	}
 	if sc.Family == "rconf-malformed" {
 		return fmt.Sprintf("%s(%q via n%d)", sc.Family, sc.Args, sc.AdminAt+1)
+	}
+	if sc.Family == "slow-commit" {
+		return fmt.Sprintf("%s(%q)", sc.Family, sc.Prog)
 	}
 	return fmt.Sprintf("%s(remove=n%d,admin@n%d,after=%d writes,upper=%v)", sc.Family, sc.Remove, sc.AdminAt+1, sc.When, sc.Upper)
 }
@@ -92,6 +97,11 @@ func scripts(tier string) []script {
 				}
 			}
 		}
+	}
+	// slow-commit: a command stays uncommitted (its node is cut off) while time passes, then the same
+	// client sends its next command, then the partition heals and both commit
+	for _, cmds := range [][][]string{{{"SET", "k0", "a"}, {"GET", "k0"}}, {{"INCR", "n"}, {"INCR", "n"}}, {{"RPUSH", "l", "x"}, {"LLEN", "l"}}} {
+		out = append(out, script{Family: "slow-commit", Prog: cmds})
 	}
 	for _, a := range [][]string{{"rconf", "add", "4"}, {"rconf", "add"}, {"rconf"}, {"rconf", "delete"}, {"rconf", "delete", "x"}, {"rconf", "add", "x", "u"}, {"rconf", "frob", "1"}, {"rconf", "update", "1"}, {"rconf", "delete", "0"}, {"rconf", "delete", "9"}, {"rconf", "add", "0", "u"}} {
 		out = append(out, script{Family: "rconf-malformed", Args: a, AdminAt: 1})
@@ -171,6 +181,25 @@ func runScript(sc script) runResult {
 		delete(s.isolated, 0)
 		ev("HEAL")
 		s.tick(1) // the new leader's heartbeat reaches the old one
+		s.stabilise(600)
+	case "slow-commit":
+		s.isolated[0] = true
+		ev("ISOLATE(n1)")
+		ci := s.addClient(0, sc.Prog)
+		s.submit(ci)
+		ev("submit(c%d@n1 %q)", ci, sc.Prog[0])
+		s.stabilise(200)
+		s.advanceClock(10 * time.Second)
+		ev("CLOCK+10s")
+		// the client sends its next command only if the node has answered the first one (an
+		// implementation without a time limit leaves it waiting: then there is nothing more to send)
+		if s.submit(ci) {
+			ev("submit(c%d@n1 %q)", ci, sc.Prog[1])
+			s.stabilise(200)
+		}
+		delete(s.isolated, 0)
+		ev("HEAL")
+		s.tick(0) // the leader's heartbeat: replication resumes
 		s.stabilise(600)
 	case "follower-lag":
 		s.isolated[2] = true
